@@ -97,6 +97,19 @@ def run_property(pid, tier, seed):
         else:
             seen[o.oid] = 0
     results = discharge_all(obs, tier) if obs else []
+    # second pass: an obligation left undecided because a solver ran out of time (a busy machine) is retried with a 6x budget and few workers, so that
+    # load does not flip a verdict; thunk / generator-decided obligations are not retried
+    retry = [i for i, (o, r) in enumerate(zip(obs, results)) if r["verdict"] == "undecided" and o.thunk is None and o.decided is None and "timeout" in (r.get("reason") or "")]
+    if retry:
+        sub = []
+        for i in retry:
+            o = obs[i]
+            o.timeout = 6 * (o.timeout or (10 if tier == "quick" else 60))
+            sub.append(o)
+        res2 = discharge_all(sub, tier, workers=4)
+        for i, r2 in zip(retry, res2):
+            r2["reason"] = "(second pass, 6x budget) " + (r2.get("reason") or "")
+            results[i] = r2
     t_solve = time.time() - t0 - t_gen
     t_c0 = time.time()
     vac, cover_stats = cover_check(obs, results)
